@@ -202,6 +202,13 @@ func cmdCheck(args []string) int {
 	prog.computeWriteSets()
 	loadS := time.Since(start).Seconds()
 
+	for _, k := range cs.Stables {
+		for _, w := range prog.stableWriters(k) {
+			if !startupFunc(w) {
+				return fail("variable " + k + " is declared stable but is assigned by " + w + " (not start-up code)")
+			}
+		}
+	}
 	var results []*FuncResult
 	for _, fc := range fcs {
 		if *only != "" && !strings.Contains(fc.Key(), *only) {
